@@ -145,7 +145,19 @@ def check_variable_set(ctx: Check, tree: Tree) -> None:
     g = tree.func(f"{HEL}::_generate_kinematic_variables")
     gval = te.eval_function(g, [TRANSITION, NODE_ID])
     gpaths = list(_paths(gval))
-    ok = bool(gpaths) and all(isinstance(v, Tup) and len(v.items) == 3 and all(same(x, sym(w)) for x, w in zip(v.items, ("MASS", "PHI", "THETA"))) for v, _ in gpaths)
+    def triple(v):
+        """the three items the value IS when read positionally (a tuple, or a NamedTuple record); None if it is no such value"""
+        if isinstance(v, Tup):
+            return list(v.items)
+        try:
+            return te._sequence(v, "returned value")
+        except AnalysisError:
+            return None
+
+    triples = [triple(v) for v, _ in gpaths]
+    if not gpaths or any(t is None or len(t) != 3 for t in triples):
+        raise AnalysisError(f"{g.qual}: does not return a triple (mass, phi, theta) the rule can read: {[repr(v)[:80] for v, _ in gpaths]}")
+    ok = all(all(same(x, sym(w)) for x, w in zip(t, ("MASS", "PHI", "THETA"))) for t in triples)
     gret = next((r for r in walk_function(g.node) if isinstance(r, ast.Return)), g.node)
     ctx.verdict(ok, "R-TERM", f"{g.qual}::roles", tree.loc(gret), "(mass, phi, theta) = (invariant mass of decay.parent, angle symbols of decay.children[0])", None if ok else [repr(v)[:200] for v, _ in gpaths])
     # angular momentum: on every path either the node's L, or the path is only taken when the node specifies none
